@@ -5,6 +5,7 @@ import (
 	"fmt"
 	"strings"
 	"sync"
+	"sync/atomic"
 
 	"github.com/dadrus/heimdall/internal/config"
 	"github.com/dadrus/heimdall/internal/heimdall"
@@ -25,6 +26,8 @@ const (
 )
 
 // Outcomes a probe can be told to produce.
+var panicKinds atomic.Int64
+
 var Outcomes = []string{"ok", "authn", "authz", "comm", "timeout", "arg", "internal", "config", "norule", "foreign", "panic"}
 
 // TraceEvent is one step boundary observation (ground truth of what ran and how it ended).
@@ -175,7 +178,23 @@ func (pr *probe) run(ctx heimdall.Context) error {
 	out := planFor(ctx, pr.name)
 	pr.p.add(TraceEvent{Req: reqID(ctx), Mech: pr.id, Stage: pr.stage, Outcome: out})
 	if out == "panic" {
-		panic("probe panic " + pr.id)
+		// panics carry values of any kind, not only errors and strings
+		n := panicKinds.Add(1)
+		switch n % 6 {
+		case 0:
+			panic("probe panic " + pr.id)
+		case 1:
+			panic(fmt.Errorf("probe panic %s", pr.id))
+		case 2:
+			panic(42)
+		case 3:
+			panic(struct{ Who string }{pr.id})
+		case 4:
+			panic([]byte("probe panic"))
+		default:
+			var m map[string]int
+			m["nil map write"] = 1 // a runtime error
+		}
 	}
 	if strings.HasPrefix(out, "sub:") {
 		return nil
